@@ -25,6 +25,7 @@ import (
 	"os"
 	"path/filepath"
 	"runtime"
+	"runtime/debug"
 	"sort"
 	"strconv"
 	"strings"
@@ -70,8 +71,8 @@ func c26Queries(keylen int) []string {
 	for c := byte('a'); c <= 'q'; c++ {
 		q = append(q, c26Key(keylen, c))
 	}
-	q = append(q, strings.Repeat("k", keylen-1))   // shorter than every stored key
-	q = append(q, c26Key(keylen, 'd')+"0")         // longer: sorts between d and f
+	q = append(q, strings.Repeat("k", keylen-1)) // shorter than every stored key
+	q = append(q, c26Key(keylen, 'd')+"0")       // longer: sorts between d and f
 	return q
 }
 
@@ -85,7 +86,8 @@ func c26Subset(keylen int, mask int) []string {
 	return ks
 }
 
-func c26Offset(i int) int64 { return int64(1000 + 37*i) }
+// offsets are deliberately not monotone in key order
+func c26Offset(i int) int64 { return int64(1000 + 37*((i*5+3)%8)) }
 
 // ---------------------------------------------------------------------------------------------
 // (a1) index worker: `store worker-c26idx <keylen> [<mask> <query index>]`
@@ -131,7 +133,10 @@ type c26Result struct {
 }
 
 func c26ThreadCPU(tid int) int64 {
-	clk := int32((^uint32(tid))<<3 | 6) // per-thread CPU-time clock id of thread tid (Linux)
+	// per-thread *user-mode* CPU-time clock of thread tid (Linux CPUCLOCK_VIRT | PERTHREAD): time
+	// a thread spends stalled in the kernel on an overloaded machine is not counted, only
+	// instructions it executes itself; the clock advances in scheduler ticks (4 ms)
+	clk := int32((^uint32(tid))<<3 | 5)
 	var ts unix.Timespec
 	if err := unix.ClockGettime(clk, &ts); err != nil {
 		return -1
@@ -194,12 +199,13 @@ func (r *c26Runner) run(f func() (int64, error), budget time.Duration) (c26Resul
 // `store worker-c26idx <keylen> confirm <mask> <qi>`: one fixed-index lookup with a large budget.
 var c26MaxSeen int64
 
-const c26MaxParked = 40
+const c26MaxParked = 64
 
 func c26IndexWorker() {
 	keylen, _ := strconv.Atoi(os.Args[2])
 	out := newWout()
 	defer out.flush()
+	debug.SetGCPercent(-1) // no collector work on the metered threads (the worker allocates a few MB)
 	queries := c26Queries(keylen)
 	budget, _ := time.ParseDuration(os.Getenv("VERIF_HANG_CPU_BUDGET"))
 	if budget == 0 {
@@ -223,7 +229,10 @@ func c26IndexWorker() {
 	if os.Args[3] == "confirm" {
 		mask, _ := strconv.Atoi(os.Args[4])
 		qi, _ := strconv.Atoi(os.Args[5])
-		_, fx, _ := build(mask)
+		mp, fx, _ := build(mask)
+		if len(os.Args) > 6 && os.Args[6] == "mapIndex" {
+			fx = mp
+		}
 		res, ok := c26NewRunner().run(func() (int64, error) { return fx.GetOffset(blockdb.Key(queries[qi])) }, budget)
 		if ok {
 			out.extra(fmt.Sprintf("returned %d %v", res.off, res.err))
@@ -238,12 +247,18 @@ func c26IndexWorker() {
 	to, _ := strconv.Atoi(os.Args[4])
 	var states, evals int64
 	runner := c26NewRunner()
-	parked := 0
+	type zombie struct {
+		r        *c26Runner
+		kind     string
+		mask, qi int
+		want     map[string]int64
+	}
+	var zombies []zombie
 	curMask := -1
 	var mp, fx blockdb.Index
 	var want map[string]int64
 	task := from
-	for ; task < to && parked < c26MaxParked; task++ {
+	for ; task < to && len(zombies) < c26MaxParked; task++ {
 		mask, qi := task/len(queries), task%len(queries)
 		q := queries[qi]
 		if mask != curMask {
@@ -271,13 +286,25 @@ func c26IndexWorker() {
 			evals++
 			res, ok := runner.run(func() (int64, error) { return idx.GetOffset(blockdb.Key(q)) }, budget)
 			if !ok {
-				out.extra(fmt.Sprintf("hang %s %d %d", kind, mask, qi))
-				out.outcome(fmt.Sprintf("%s|%d|%s|no-return", kind, mask, q))
-				parked++
+				zombies = append(zombies, zombie{runner, kind, mask, qi, want})
 				runner = c26NewRunner()
 				continue
 			}
 			c26JudgeLookup(out, kind, keylen, mask, qi, q, want, res.off, res.err)
+		}
+	}
+	// A parked call that does return after all (it needed only microseconds more) delivers its
+	// result; whatever is still running after the grace period is a hang candidate.
+	if len(zombies) > 0 {
+		time.Sleep(30 * time.Millisecond)
+	}
+	for _, z := range zombies {
+		select {
+		case res := <-z.r.out:
+			c26JudgeLookup(out, z.kind, keylen, z.mask, z.qi, queries[z.qi], z.want, res.off, res.err)
+		default:
+			out.extra(fmt.Sprintf("hang %s %d %d", z.kind, z.mask, z.qi))
+			out.outcome(fmt.Sprintf("%s|%d|%s|no-return", z.kind, z.mask, queries[z.qi]))
 		}
 	}
 	out.extra(fmt.Sprintf("next %d", task))
@@ -383,17 +410,30 @@ func c26DBWorker() {
 		}
 	}
 	dir := os.Args[6]
+	resume := 0
+	if len(os.Args) > 7 {
+		resume, _ = strconv.Atoi(os.Args[7])
+	}
 	out := newWout()
 	defer out.flush()
 	keys := c26StoredKeys(keylen)
 	queries := c26Queries(keylen)
 	var states, trans, evals int64
+	runner := c26NewRunner()
+	parked := 0
+	const readBudget = 250 * time.Millisecond // CPU time; a Read of the largest record costs < 1 ms
 	n := 0
 	for mask := 0; mask < 1<<len(keys); mask++ {
 		for variant := 0; variant < 8; variant++ {
 			n++
-			if n%nshards != shard {
+			if n%nshards != shard || n <= resume {
 				continue
+			}
+			if parked >= 8 { // too many parked threads: let the parent start a fresh process
+				out.extra(fmt.Sprintf("resume %d", n-1))
+				out.count(states, trans, evals)
+				out.flush()
+				os.Exit(0)
 			}
 			compress, desc, hdr := variant&1 != 0, variant&2 != 0, variant&4 != 0
 			base := filepath.Join(dir, fmt.Sprintf("db-%d-%d-%d", keylen, mask, variant))
@@ -461,14 +501,27 @@ func c26DBWorker() {
 					fail("C26:BlockDB.Open:"+kind+":error", err.Error(), nil)
 					continue
 				}
+				handleBusy := false
 				for qi, q := range queries {
 					if kind == "fixedKeyArrayIndex" && skip[fmt.Sprintf("%d %d", mask, qi)] {
 						continue // its index lookup (Read's first step) is already known not to return
 					}
 					var got c26Rec
-					err := db2.Read(blockdb.Key(q), &got)
+					res, returned := runner.run(func() (int64, error) { return 0, db2.Read(blockdb.Key(q), &got) }, readBudget)
 					evals++
 					w, present := written[q]
+					if !returned {
+						class := "absent-key-no-return"
+						if present {
+							class = "present-key-no-return"
+						}
+						fail("C26:BlockDB.Read:"+kind+":"+class, fmt.Sprintf("Read(%q) consumed %v of CPU time without returning (its index lookup had returned in the index-level pass)", q, readBudget), map[string]any{"query": q})
+						parked++
+						runner = c26NewRunner()
+						handleBusy = true
+						break // the handle is in use by the parked call: no further reads on it
+					}
+					err := res.err
 					switch {
 					case present && err != nil:
 						fail("C26:BlockDB.Read:"+kind+":present-key-error", fmt.Sprintf("Read(%q): %v", q, err), map[string]any{"query": q})
@@ -484,6 +537,9 @@ func c26DBWorker() {
 					} else {
 						out.outcome(fmt.Sprintf("db|%s|%d|%d|%s|%v", kind, mask, variant, q, err))
 					}
+				}
+				if handleBusy {
+					continue
 				}
 				_ = db2.Close()
 				// ReadAll on a fresh handle: every written record, nothing else
@@ -937,6 +993,13 @@ func c26Main() {
 	run.Bounds["crash_cut_granularity"] = 512
 
 	hangs := 0
+	phases := map[string]float64{}
+	tPhase := time.Now()
+	lap := func(name string) {
+		phases[name] += time.Since(tPhase).Seconds()
+		tPhase = time.Now()
+	}
+	run.Extra["phase_wall_s"] = phases
 	for _, kl := range keylens {
 		// ---- (a1)
 		queries := c26Queries(kl)
@@ -989,6 +1052,7 @@ func c26Main() {
 			}(lo, hi)
 		}
 		wg.Wait()
+		lap("index_lookups")
 		hangs += len(cands)
 		if len(cands) > 0 {
 			// minimal candidate first: fewest stored keys, then smallest mask / query
@@ -1019,14 +1083,9 @@ func c26Main() {
 				if _, done := confirmed[class]; done {
 					continue
 				}
-				if c.kind != "fixedKeyArrayIndex" {
-					run.Violation("C26:"+class, fmt.Sprintf("stored %v lookup %q did not return", c26Subset(kl, c.mask), q), c)
-					confirmed[class] = true
-					continue
-				}
 				jobs := make([][]string, 5)
 				for i := range jobs {
-					jobs[i] = []string{"worker-c26idx", strconv.Itoa(kl), "confirm", strconv.Itoa(c.mask), strconv.Itoa(c.qi)}
+					jobs[i] = []string{"worker-c26idx", strconv.Itoa(kl), "confirm", strconv.Itoa(c.mask), strconv.Itoa(c.qi), c.kind}
 				}
 				res := runWorkers(jobs, []string{"GOMAXPROCS=4", "VERIF_HANG_CPU_BUDGET=1s"}, 5, 5*time.Minute)
 				all := true
@@ -1048,32 +1107,52 @@ func c26Main() {
 				}
 				if all {
 					run.Violation("C26:"+class,
-						fmt.Sprintf("key length %d, stored keys %v: GetOffset(%q) does not return (5 of 5 fresh processes, each stopped after 1 s of CPU time spent inside the call; a returning lookup costs < 1 us); %d of the %d (key set, query) pairs of this key length did not return within 10 ms of CPU time", kl, c26Subset(kl, c.mask), q, n, total),
-						map[string]any{"keylen": kl, "stored_keys": c26Subset(kl, c.mask), "query": q, "how": "index := mapIndex{stored_keys}.Encode -> fixedKeyArrayIndex.Decode; index.GetOffset(query)  (= BlockDB.Open; BlockDB.Read(query))"})
+						fmt.Sprintf("key length %d, stored keys %v: GetOffset(%q) does not return (5 of 5 fresh processes, each stopped after 1 s of user CPU time spent inside the call; a returning lookup costs < 1 us); %d of the %d (key set, query) pairs of this key length did not return within 10 ms of user CPU time", kl, c26Subset(kl, c.mask), q, n, total),
+						map[string]any{"keylen": kl, "stored_keys": c26Subset(kl, c.mask), "query": q, "index": c.kind, "how": "index := mapIndex{stored_keys}.Encode -> <index>.Decode; index.GetOffset(query)  (= BlockDB.Open; BlockDB.Read(query))"})
 				} else {
 					run.Capped(fmt.Sprintf("lookup %v/%q exceeded the 10 ms CPU budget in the batch run but returned when re-run alone: not reported", c26Subset(kl, c.mask), q))
 				}
 			}
 		}
+		lap("hang_confirmation")
 		// ---- (a2)
 		skipFile := filepath.Join(dir, fmt.Sprintf("skip-%d", kl))
 		if err := os.WriteFile(skipFile, []byte(strings.Join(skipLines, "\n")), 0o644); err != nil {
 			ev.Fatal("skip file: %v", err)
 		}
-		var jobs [][]string
-		for s := 0; s < par; s++ {
-			jobs = append(jobs, []string{"worker-c26db", strconv.Itoa(kl), strconv.Itoa(s), strconv.Itoa(par), skipFile, dir})
+		var dwg sync.WaitGroup
+		for sh := 0; sh < par; sh++ {
+			dwg.Add(1)
+			go func(sh int) {
+				defer dwg.Done()
+				resume := 0
+				for {
+					args := []string{"worker-c26db", strconv.Itoa(kl), strconv.Itoa(sh), strconv.Itoa(par), skipFile, dir, strconv.Itoa(resume)}
+					r := runWorker(args, []string{"GOMAXPROCS=12"}, 10*time.Minute)
+					if r.timedOut {
+						run.Violation("C26:BlockDB:worker-no-return", fmt.Sprintf("DB worker %d did not finish in 10 min", sh), args)
+						return
+					}
+					if r.err != nil {
+						ev.Fatal("db worker %d: %v\n%s", sh, r.err, r.stderr)
+					}
+					next := -1
+					cmu.Lock()
+					for _, x := range absorb(run, r) {
+						fmt.Sscanf(x, "resume %d", &next)
+					}
+					cmu.Unlock()
+					if next < 0 {
+						return
+					}
+					if next <= resume {
+						ev.Fatal("db worker %d made no progress", sh)
+					}
+					resume = next
+				}
+			}(sh)
 		}
-		for i, r := range runWorkers(jobs, nil, par, 10*time.Minute) {
-			if r.timedOut {
-				run.Violation("C26:BlockDB:worker-hang", fmt.Sprintf("DB worker %d did not finish in 10 min", i), jobs[i])
-				continue
-			}
-			if r.err != nil {
-				ev.Fatal("db worker %d: %v\n%s", i, r.err, r.stderr)
-			}
-			absorb(run, r)
-		}
+		dwg.Wait()
 	}
 	run.Extra["index_lookups_not_returning"] = hangs
 	run.Sample(map[string]any{"part": "index", "stored_keys": c26Subset(2, 0b10101), "queries": c26Queries(2)})
@@ -1084,10 +1163,11 @@ func c26Main() {
 		ev.Fatal("blockstore worker failed: timeout=%v err=%v %s", w.timedOut, w.err, w.stderr)
 	}
 	absorb(run, w)
+	lap("blockstore")
 
 	run.Assumptions = []string{
 		"crash model: a process crash leaves a prefix of the file being written (every 512-byte prefix, 0, 1, len-1, or no file); earlier completed files are untouched",
-		"hang verdict: a lookup that consumed 10 ms of CPU time on its own OS thread without returning (a returning lookup costs < 1 us) is a candidate; the minimal candidate of each class is re-run alone 5x in fresh processes with a 1 s CPU budget before it is reported",
+		"hang verdict: a lookup that consumed more than 10 ms of user-mode CPU time (3 scheduler ticks) on its own OS thread without returning (a returning lookup costs < 1 us) is a candidate; the minimal candidate of each class is re-run alone 5x in fresh processes with a 1 s CPU budget before it is reported",
 		"DB-level Read is not re-executed for (key set, query) pairs whose index lookup - Read's first step - does not return",
 		"block equality = equality of the JSON form (all persisted fields: hash, header, tickets, transactions with outputs, magic block) plus MagicBlock.GetHash()",
 	}
